@@ -4,6 +4,13 @@ import XmpModel.Virt
 
 `VInv` is established by `virtOn` and preserved by every table-changing operation of the
 model `XmpModel/Virt.lean`; it implies `0 ≤ virtUsed ≤ maxvoc ≤ virtChannels`.
+
+Main results: `VInv.bounds`, `virtOn_inv`, `virtReset_inv`, `resetVoice_inv`, `resetChannel_inv`,
+`setVol_inv`, `allocVoice_inv` (`allocVoice_good` for the general case with the weaker `VInvX`),
+`setPatch_inv` (precondition `SetPatchOk`; the free background slot for the NNA relocation is obtained
+by pigeonhole, `exists_free_background`), `pastNoteCut_inv`, `OpOk`, `step_inv`, `RunOk`, `run_inv`,
+`run_consts`, `run_bounds`, the decidable checker `vinvB` with `vinvB_sound` / `vinvB_iff`,
+and concrete witnesses (`demoOps`).
 -/
 namespace Xmp.Virt
 open Xmp.Gen.PlayerConsts
@@ -1097,5 +1104,79 @@ theorem run_consts {s : VState} (h : VInv s) : ∀ (ops : List Op), RunOk s ops 
 theorem run_bounds {s : VState} (h : VInv s) (ops : List Op) (ok : RunOk s ops) :
     0 ≤ (ops.foldl step s).virtUsed ∧ (ops.foldl step s).virtUsed ≤ (ops.foldl step s).maxvoc ∧
     (ops.foldl step s).maxvoc ≤ (ops.foldl step s).virtChannels := (run_inv h ops ok).bounds
+
+
+/-! ## executable checker and a non-vacuity witness -/
+
+/-- `VInv` with the quantifiers bounded over `Nat` (decidable) -/
+def VInvD (s : VState) : Prop :=
+  0 ≤ s.maxvoc ∧ s.voices.length = s.maxvoc.toNat ∧ s.chans.length = s.virtChannels.toNat ∧
+  (0 ≤ s.numTracks ∧ s.numTracks ≤ s.virtChannels) ∧ s.maxvoc ≤ s.virtChannels ∧
+  (∀ n : Nat, n < s.maxvoc.toNat →
+    ((s.voice n).chn = -1 ∧ (s.voice n).root = -1) ∨
+    (0 ≤ (s.voice n).chn ∧ (s.voice n).chn < s.virtChannels ∧
+     0 ≤ (s.voice n).root ∧ (s.voice n).root < s.virtChannels ∧ (s.chan (s.voice n).chn).map = n)) ∧
+  (∀ n : Nat, n < s.virtChannels.toNat →
+    (s.chan n).map = -1 ∨
+    (0 ≤ (s.chan n).map ∧ (s.chan n).map < s.maxvoc ∧ (s.voice (s.chan n).map).chn = n)) ∧
+  s.virtUsed = usedCount s ∧
+  (∀ n : Nat, n < s.virtChannels.toNat → (s.chan n).count = rootCount s n)
+
+instance (s : VState) : Decidable (VInvD s) := by unfold VInvD; infer_instance
+
+/-- Bool-valued invariant checker -/
+def vinvB (s : VState) : Bool := decide (VInvD s)
+
+theorem VInvD.sound {s : VState} (h : VInvD s) : VInv s := by
+  obtain ⟨h1, h2, h3, h4, h5, h6, h7, h8, h9⟩ := h
+  refine ⟨h1, h2, h3, h4, h5, ?_, ?_, h8, ?_⟩
+  · intro i hi0 hi1
+    have := h6 i.toNat (by omega)
+    rwa [Int.toNat_of_nonneg hi0] at this
+  · intro c hc0 hc1
+    have := h7 c.toNat (by omega)
+    rwa [Int.toNat_of_nonneg hc0] at this
+  · intro c hc0 hc1
+    have := h9 c.toNat (by omega)
+    rwa [Int.toNat_of_nonneg hc0] at this
+
+theorem vinvB_sound {s : VState} (h : vinvB s = true) : VInv s :=
+  VInvD.sound (of_decide_eq_true h)
+
+theorem VInv.toD {s : VState} (h : VInv s) : VInvD s := by
+  refine ⟨h.maxvoc_nonneg, h.len_voices, h.len_chans, h.tracks, h.maxvoc_le, ?_, ?_, h.used_eq, ?_⟩
+  · intro n hn; exact h.voice_ok n (by omega) (by omega)
+  · intro n hn; exact h.chan_ok n (by omega) (by omega)
+  · intro n hn; exact h.count_eq n (by omega) (by omega)
+
+/-- the checker is complete as well: it decides `VInv` -/
+theorem vinvB_iff (s : VState) : vinvB s = true ↔ VInv s :=
+  ⟨vinvB_sound, fun h => decide_eq_true h.toD⟩
+
+instance (s : VState) (op : Op) : Decidable (OpOk s op) := by
+  cases op <;> simp only [OpOk, SetPatchOk] <;> infer_instance
+
+instance : (s : VState) → (ops : List Op) → Decidable (RunOk s ops)
+  | _, [] => isTrue trivial
+  | s, op :: rest =>
+    have := instDecidableRunOk (step s op) rest
+    by unfold RunOk; infer_instance
+
+/-- a small virtual-channel history: 2 tracks, 3 voices; the second `setPatch` on channel 0 finds
+voice 0 in NNA action 1 and relocates it to background channel 2; `setVol 2 0` then releases it. -/
+def demoOps : List Op :=
+  [.setPatch 0 1 1 60 1 0 0, .setPatch 0 1 1 62 1 0 0, .setPatch 1 2 0 50 2 0 0, .setVol 2 0 false,
+   .resetChannel 1]
+
+example : RelocTaken (step (virtOn 2 3 true) (.setPatch 0 1 1 60 1 0 0)) 0 := by decide
+example : ((demoOps.take 3).foldl step (virtOn 2 3 true)).virtUsed = 3 := by decide
+example : (((demoOps.take 2).foldl step (virtOn 2 3 true)).voice 0).chn = 2 := by decide
+example : VInv (demoOps.foldl step (virtOn 2 3 true)) := vinvB_sound (by decide)
+example : VInv ((demoOps.take 2).foldl step (virtOn 2 3 true)) := vinvB_sound (by decide)
+example : RunOk (virtOn 2 3 true) demoOps := by decide
+example : VInv (demoOps.foldl step (virtOn 2 3 true)) :=
+  run_inv (virtOn_inv 2 3 true (by decide) (by decide)) demoOps (by decide)
+/-- the precondition of `resetVoice` is needed: resetting a free voice breaks the invariant -/
+example : ¬ VInv (resetVoice (virtOn 2 3 true) 0) := fun h => absurd ((vinvB_iff _).2 h) (by decide)
 
 end Xmp.Virt
